@@ -45,6 +45,11 @@ limitations under the License.
 #include <photon/common/alog-functionptr.h>
 #include <photon/thread/thread-key.h>
 #include <photon/thread/arch.h>
+#include <photon/common/verif-hook.h>
+
+#ifdef PHOTON_VERIF
+extern "C" { photon_verif_hook_t photon_verif_hook = nullptr; }
+#endif
 
 /* notes on the scheduler:
 
